@@ -1,8 +1,10 @@
 //! mc-ark / mc-min: one source tree, two binaries (decaf377 with the arkworks+r1cs features, and
 //! decaf377 with --no-default-features), both built with --cfg decaf377_verif against /repo.
 mod bfs;
+mod c10;
 mod core;
 mod explorer;
+mod fields;
 mod sut;
 
 use crate::core::*;
@@ -83,6 +85,10 @@ fn dispatch(ctx: &Arc<Ctx>) -> &'static str {
             explorer::run(ctx, explorer::Sel::from(&ctx.prop).unwrap());
             "model_checking"
         }
+        "C10" => {
+            c10::run(ctx);
+            "model_checking"
+        }
         p => {
             eprintln!("MACHINERY-ERROR: no check for {p} in build {BUILD}");
             std::process::exit(2);
@@ -98,16 +104,35 @@ fn replay(doc: &Value) -> i32 {
         println!("replay is for build {} (this is {BUILD}); skipped", doc["build"]);
         return 0;
     }
-    let once = || -> (bool, Value) {
-        match engine {
-            "E1" => {
-                let sel = explorer::Sel::from(prop).unwrap_or(explorer::Sel::C04);
-                let gm = explorer::build_model(sel, 255);
-                let acts: Vec<Value> = doc["case"]["actions"].as_array().cloned().unwrap_or_default();
-                let (ok, trace) = explorer::replay_path(&gm, doc["case"]["seed"].as_str().unwrap_or(""), &acts);
-                (ok, Value::Array(trace))
-            }
-            _ => (true, Value::String(format!("no replayer for engine {engine}"))),
+    let doc2 = doc.clone();
+    let engine = engine.to_string();
+    let prop2 = prop.to_string();
+    let once = move || -> (bool, Value) {
+        let doc = doc2.clone();
+        let engine = engine.clone();
+        let prop = prop2.clone();
+        // run in a thread so that a non-terminating case is reported instead of hanging
+        let (tx, rx) = std::sync::mpsc::channel();
+        std::thread::spawn(move || {
+            let res = match engine.as_str() {
+                "E1" => {
+                    let sel = explorer::Sel::from(&prop).unwrap_or(explorer::Sel::C04);
+                    let gm = explorer::build_model(sel, 255);
+                    let acts: Vec<Value> = doc["case"]["actions"].as_array().cloned().unwrap_or_default();
+                    let (ok, trace) = explorer::replay_path(&gm, doc["case"]["seed"].as_str().unwrap_or(""), &acts);
+                    (ok, Value::Array(trace))
+                }
+                e if e.starts_with("E3/C10") || e.starts_with("E1/C10") => match guarded(|| c10::replay(&doc["case"])) {
+                    Ok(r) => r,
+                    Err(m) => (false, Value::String(format!("panic: {m}"))),
+                },
+                e => (true, Value::String(format!("no replayer for engine {e}"))),
+            };
+            let _ = tx.send(res);
+        });
+        match rx.recv_timeout(std::time::Duration::from_secs(30)) {
+            Ok(r) => r,
+            Err(_) => (false, Value::String("did not terminate within 30 s".into())),
         }
     };
     let (ok1, t1) = once();
